@@ -5,7 +5,7 @@ from harness import datasourcing as D
 
 ID = "C20"
 PROPS = "props/C20.v"
-NEEDS = ["request_recv_buffer_size"]
+NEEDS = ["request_recv_buffer_size", "data_sourcing_request_limit"]
 
 
 def streams():
@@ -31,8 +31,8 @@ ASSUMPTIONS = [
     "NaN, +-inf, -0.0, +-denormal, +-largest double to reserved codes, recognised by isnan/copysign, never by ==; a sample WITHOUT a "
     "value to a code of its own), so `Quantity(nan)` and `None` are different observations; other float values are not generated",
     "request channel: in-domain are bursts of up to _REQUEST_RECV_BUFFER_SIZE requests issued back to back before the actor runs (the "
-    "constant is re-translated on every run; that the actor's request receiver has this capacity is read off the receiver the real "
-    "_DataPipeline creates - the translator cannot evaluate the Name-valued `limit=` keyword); larger bursts drop the oldest requests "
+    "constant and the `limit=` keyword of the actor's request receiver are both re-translated on every run and proved equal; the "
+    "pipeline stream also reads the capacity off the receiver the real _DataPipeline creates); larger bursts drop the oldest requests "
     "and are outside the property",
     "message timestamps may be expressed in any aware time zone; observations compare the INSTANT",
     "liveness is judged at quiescence only: after all injected delays, retries and restarts have elapsed the API sends one more message "
